@@ -11,7 +11,7 @@ LEVEL = 'exploration'
 SHARD_TIMEOUT = {'quick': 900, 'thorough': 7200}
 RULE = ('case = one program: IT with a legal (firstcond, mask) [all 15x15 minus the UNPREDICTABLE AL forms], NZCV (all 16), '
         'then the block\'s 1-4 instructions drawn from {16-bit ALU that would set flags, 32-bit ALU, MSR APSR_<bits>, Rn, load, branch in the '
-        'last slot (B, or BX/BLX/POP/LDR/MOV to the PC into ARM or Thumb code)}, an exception return in the last slot also restores an ITSTATE (landing inside an IT block; the restored value may equal the one the return executes under), optionally an exception at slot k in {SVC, UDF, '
+        'last slot (B, or BX/BLX/POP/LDR/MOV to the PC into ARM or Thumb code)}, an exception return in the last slot also restores an ITSTATE (landing inside an IT block; the restored value may equal the one the return executes under), an SVC handler that installs another saved status with MSR SPSR_fsxc before it returns, optionally an exception at slot k in {SVC, UDF, '
         'alignment-faulting LDR, WFI trapped to Hyp mode by HCR.TWI} with an ARM or Thumb handler '
         'that performs the standard return; EVERY step (incl. entry and return) is compared location-by-location with '
         'the reference step from the same snapshot, and ITSTATE must be 0 when the block is finished; plus it_advance() '
@@ -244,6 +244,14 @@ def run_program(ls, rng, fc, mask, nzcv):
         M.poke(cpu, 0x04, (0xE1B0F00E).to_bytes(4, 'little'))      # UND: MOVS PC, LR
         M.poke(cpu, 0x08, (0xE1B0F00E).to_bytes(4, 'little'))      # SVC: MOVS PC, LR
         M.poke(cpu, 0x10, (0xE25EF006).to_bytes(4, 'little'))      # ABT: SUBS PC, LR, #6 (skip the 16-bit load)
+        if exc == 'svc' and rng.random() < 0.4:
+            # the SVC handler switches context: it installs ANOTHER saved program status - same mode, Thumb, an ITSTATE with
+            # up to four slots pending - with MSR SPSR_fsxc, r9 and returns; what is restored is what was installed
+            its = (rng.randrange(14) << 4) | rng.choice([0b0001, 0b0011, 0b0010, 0b0110, 0b0100, 0b1100, 0b1000, 0b0111])
+            img = (r.cpsr.value & 0xF80F03DF) | 0x20 | ((its & 3) << 25) | ((its >> 2) << 10)
+            r.set(9, img)
+            M.poke(cpu, 0x08, (0xE16FF009).to_bytes(4, 'little') + (0xE1B0F00E).to_bytes(4, 'little'))   # MSR SPSR_fsxc, r9 ; MOVS PC, LR
+            kinds.append('rfe-into-it-by-msr-spsr-%02x' % its)
     else:
         for vec, imm in ((0x04, 0), (0x08, 0), (0x10, 6)):
             M.poke(cpu, vec, (0xF3DE).to_bytes(2, 'little') + (0x8F00 | imm).to_bytes(2, 'little'))   # SUBS PC, LR, #imm
